@@ -693,3 +693,7 @@ pub struct ServerData {
     pub stats: ServerStats,
     pub config: ServerConfig,
 }
+
+#[cfg(all(test, feature = "pendulum_project_ntpd_rs_verif"))]
+#[path = "../../../../verif/harness/ntpd/daemon_system.rs"]
+mod verif_daemon_system;
